@@ -173,7 +173,7 @@ package server
 //@ func (*server.Service).shouldRedirectToHTTPS
 //@ requires r != nil
 //@ assigns nothing
-//@ ensures[C16] policy: result == (s.options.TLSEnabled && s.options.TLSRedirect && r.TLS == nil)
+//@ ensures[C16,C11] policy: result == (s.options.TLSEnabled && s.options.TLSRedirect && r.TLS == nil)
 
 //@ func (*server.Service).redirectToHTTPS
 //@ may_emit Redirect, SetHeader
@@ -432,7 +432,7 @@ package server
 //@ assigns Target.state, everHealthy, cancelled, closed
 //@ ensures[C03,C17] bounded_by_drain_timeout: now <= old(now) + max(timeout, 0)
 //@ emits DrainAll(lb, timeout)
-//@ loop 1 invariant[C03] every_target_drained: forall i int :: 0 <= i && i < idx ==> spawned("(*server.LoadBalancer).DrainAll$1", coll[i])
+//@ loop 1 invariant[C03,C02,C17,C18] every_target_drained: forall i int :: 0 <= i && i < idx ==> spawned("(*server.LoadBalancer).DrainAll$1", coll[i])
 //@ loop 1 invariant same_list: coll == lb.all && idx <= len(coll) && now == old(now)
 
 //@ func (server.TargetList).Dispose
@@ -668,7 +668,7 @@ package server
 //@ func server.NormalizePathPrefixes
 //@ assigns nothing
 //@ ensures[C04,C05] never_empty: len(result) > 0 && (len(pathPrefixes) == 0 ==> len(result) == 1 && result[0] == "/") && (len(pathPrefixes) > 0 ==> len(result) == len(pathPrefixes))
-//@ ensures[C04,C05] normalised: forall i int :: 0 <= i && i < len(result) ==> normPrefix(result[i])
+//@ ensures[C04,C05,C13] normalised: forall i int :: 0 <= i && i < len(result) ==> normPrefix(result[i])
 //@ ensures fresh_list: fresh(ref(result))
 //@ loop 1 invariant[C04] normalised_so_far: len(result) == idx && idx <= len(coll) && coll == pathPrefixes && fresh(ref(result)) && forall i int :: 0 <= i && i < len(result) ==> normPrefix(result[i])
 
@@ -1306,7 +1306,7 @@ package server
 //@ requires s.config != nil && s.router != nil
 //@ assigns *
 //@ may_emit *
-//@ ensures[C15,C06] an_error_response_can_be_written_however_late_the_target_fails: err == nil ==> s.httpServer.WriteTimeout == 0 && s.httpsServer.WriteTimeout == 0 && s.httpServer.ReadTimeout == 0 && s.httpsServer.ReadTimeout == 0
+//@ ensures[C15,C06,C02,C07,C08,C13] an_error_response_can_be_written_however_late_the_target_fails: err == nil ==> s.httpServer.WriteTimeout == 0 && s.httpsServer.WriteTimeout == 0 && s.httpServer.ReadTimeout == 0 && s.httpsServer.ReadTimeout == 0
 
 //@ func server.PerformConcurrently
 //@ attr blocks
